@@ -188,21 +188,19 @@ Proof.
 Qed.
 
 
-(* the stream route (arithmetics.jaccard / forbes) raises on an interval set without entries: guarded *)
-Lemma is_nil_false {T} (l : list T) : l <> [] -> is_nil l = false.
-Proof. destruct l; [congruence|reflexivity]. Qed.
-Lemma link_jaccard_stream : k_op c = 11 -> A c <> [] -> B c <> [] -> spec_ok c = true.
+(* the stream route (arithmetics.jaccard / forbes): since a68b397 an interval set without entries is accepted *)
+Lemma link_jaccard_stream : k_op c = 11 -> spec_ok c = true.
 Proof.
-  intros Hop HA HB. pose proof size_pos. unfold spec_ok; rewrite Hdom; cbn [andb]; unfold model_ok in Hm; unfold domain in Hdom;
+  intros Hop. pose proof size_pos. unfold spec_ok; rewrite Hdom; cbn [andb]; unfold model_ok in Hm; unfold domain in Hdom;
   rewrite Hop in Hm, Hdom |- *; cbv beta iota zeta in Hm, Hdom |- *. split_andb.
-  unfold jaccard_stream_model, stream_similarity in Hm. rewrite (is_nil_false _ HA), (is_nil_false _ HB) in Hm. cbn [orb] in Hm.
+  unfold jaccard_stream_model, stream_similarity, stream_similarity_fixed in Hm.
   rewrite jaccard_is_per_base in Hm; [exact Hm|lia|apply wf_set_of; assumption|apply wf_set_of; assumption].
 Qed.
-Lemma link_forbes_stream : k_op c = 12 -> A c <> [] -> B c <> [] -> spec_ok c = true.
+Lemma link_forbes_stream : k_op c = 12 -> spec_ok c = true.
 Proof.
-  intros Hop HA HB. pose proof size_pos. unfold spec_ok; rewrite Hdom; cbn [andb]; unfold model_ok in Hm; unfold domain in Hdom;
+  intros Hop. pose proof size_pos. unfold spec_ok; rewrite Hdom; cbn [andb]; unfold model_ok in Hm; unfold domain in Hdom;
   rewrite Hop in Hm, Hdom |- *; cbv beta iota zeta in Hm, Hdom |- *. split_andb.
-  unfold forbes_stream_model, stream_similarity in Hm. rewrite (is_nil_false _ HA), (is_nil_false _ HB) in Hm. cbn [orb] in Hm.
+  unfold forbes_stream_model, stream_similarity, stream_similarity_fixed in Hm.
   rewrite forbes_is_per_base in Hm; [exact Hm|lia|apply wf_set_of; assumption|apply wf_set_of; assumption].
 Qed.
 
@@ -297,11 +295,9 @@ Qed.
 End Link.
 
 (* ---------- every case class at once ---------- *)
-Definition stream_guard (c : case) : Prop := (k_op c = 11 \/ k_op c = 12) -> A c <> [] /\ B c <> [].
-
-Theorem model_implies_spec c : domain c = true -> stream_guard c -> model_ok c = true -> spec_ok c = true.
+Theorem model_implies_spec c : domain c = true -> model_ok c = true -> spec_ok c = true.
 Proof.
-  intros Hdom Hg Hm. pose proof Hdom as Hd0. unfold domain in Hd0.
+  intros Hdom Hm. pose proof Hdom as Hd0. unfold domain in Hd0.
   remember (k_op c) as op eqn:Hop. symmetry in Hop.
   destruct op as [|p|p]; try (cbv beta iota zeta in Hd0; rewrite andb_false_r in Hd0; discriminate).
   do 5 (try destruct p as [p|p|]); try (cbv beta iota zeta in Hd0; rewrite andb_false_r in Hd0; discriminate).
@@ -311,15 +307,14 @@ Proof.
     | apply (link_sort_geom c Hdom Hm Hop) | apply (link_count_overlap c Hdom Hm Hop) | apply (link_intersect c Hdom Hm Hop)
     | apply (link_unique_intersect c Hdom Hm Hop) | apply (link_clip c Hdom Hm Hop) | apply (link_extend c Hdom Hm Hop)
     | apply (link_jaccard_geom c Hdom Hm Hop) | apply (link_geom_pileup c Hdom Hm Hop) | apply (link_geom_mask c Hdom Hm Hop)
-    | apply (link_geom_merge c Hdom Hm Hop)
-    | apply (link_jaccard_stream c Hdom Hm Hop); apply Hg; left; exact Hop
-    | apply (link_forbes_stream c Hdom Hm Hop); apply Hg; right; exact Hop ].
+    | apply (link_geom_merge c Hdom Hm Hop) | apply (link_jaccard_stream c Hdom Hm Hop) | apply (link_forbes_stream c Hdom Hm Hop) ].
 Qed.
 
-(* without the guard the link is false: the stream route raises on an empty set, the model says so, the property does not hold *)
-Lemma model_implies_spec_unguarded_refuted : exists c, domain c = true /\ model_ok c = true /\ spec_ok c = false.
+(* history: the stream route as it was before a68b397 raised on an interval set without entries, so it could not return
+   the per-base value there *)
+Lemma stream_similarity_pinned_refuted :
+  exists A B size, wf_set A size /\ wf_set B size
+    /\ stream_similarity_pinned jaccard_model A B size <> Ret (jaccard_spec A B size).
 Proof.
-  exists {| k_op := 11; k_size := 5; k_d := 0; k_sizes := [5]; k_rank := 0; k_a := []; k_b := [(0, 1, 3)]; k_err := 2;
-            k_dense := []; k_ivs := []; k_num := 0; k_den := 1; k_kind := 0 |}.
-  vm_compute. repeat split; reflexivity.
+  exists [], [(1, 3)], 5. split; [intros i []|]. split; [intros i [E|[]]; subst; simpl; lia|]. vm_compute. discriminate.
 Qed.
